@@ -389,6 +389,14 @@ def e2e_case(case):
             await c.quit()
             return ok
 
+        async def visitors():
+            # other connections of the measured users log in (and leave) while the transfers are under way
+            for n_visit, frac in enumerate((0.25, 0.5, 0.6)):
+                await asyncio.sleep(frac * size / LIM - (w.loop.time() - t_start[0]))
+                await churn(n_visit)
+
+        t_start = [0.0]
+
         async def main():
             if case.get("churn"):
                 for k in range(nconn):
@@ -396,6 +404,10 @@ def e2e_case(case):
                     await churn(k)
             else:
                 await asyncio.gather(*[login(k) for k in range(nconn)])
+            t_start[0] = w.loop.time()
+            if case.get("midlogin"):
+                res = await asyncio.gather(*[one(k) for k in range(nconn)], visitors())
+                return res[:nconn]
             return await asyncio.gather(*[one(k) for k in range(nconn)])
 
         problems = []
@@ -575,6 +587,12 @@ def e2e_items(tier):
                     # the same, with other connections of the same users logging in and out in between
                     cases.append({"levels": levels, "direction": direction, "nconn": nconn, "nusers": nusers,
                                   "size": sizes[0], "churn": True})
+    # other sessions of the same account log in and out *while* the measured transfers are running
+    for levels in (["user"], ["user", "server"], ["server"], ["user_per_connection"], ["user", "client"]):
+        for direction in ("download", "upload"):
+            for nconn, nusers in ((1, 1), (2, 1), (2, 2)):
+                cases.append({"levels": levels, "direction": direction, "nconn": nconn, "nusers": nusers,
+                              "size": 40 * BLOCK, "midlogin": True})
     # re-login on the same control connection: only the limits of the user logged in *now* apply
     for lv in ("user", "user_per_connection"):
         for direction in ("download", "upload"):
@@ -605,7 +623,7 @@ def run(tier, seed, t0):
                       "configs": ["single", "two-throttles", "unlimited/zero/opposite", "setter/clone mid-sequence",
                                   "shared vs cloned (two concurrent streams)"]},
               "e2e": {"levels": LEVELS, "pairs": "all ordered pairs (first = tightest)", "directions": ["download", "upload"],
-                      "connections_users": [(1, 1), (2, 1), (2, 2), (3, 2)], "churn": "extra connections of the same users log in and out between the logins of the measured ones", "sizes": [BLOCK, 3 * BLOCK + 1, 20 * BLOCK],
+                      "connections_users": [(1, 1), (2, 1), (2, 2), (3, 2)], "mid_transfer_logins": "three more connections of the measured users log in and quit at 25/50/60 % of the transfer", "churn": "extra connections of the same users log in and out between the logins of the measured ones", "sizes": [BLOCK, 3 * BLOCK + 1, 20 * BLOCK],
                       "limit": LIM, "cases": ncases, "relogin": "free user then limited user and the reverse on one control connection"}}
     return report.finish(
         PID, tier, seed, "model_checking", part, t0,
